@@ -87,4 +87,18 @@ theorem deliver_exits (cfg : Cfg) (w : World) (k : Nat) (bs : Str) :
   | none => exact ⟨0, by simp⟩
   | some s => exact finishSlot_exits w k _ _ _
 
+theorem dropGone_other (ks : List Nat) : ∀ (w : World) (j : Nat), ks.contains j = false →
+    (dropGone ks w).slot j = w.slot j ∧ (dropGone ks w).exits = w.exits := by
+  induction ks with
+  | nil => intro w j _; exact ⟨rfl, rfl⟩
+  | cons k ks ih =>
+    intro w j hj
+    simp only [List.contains_cons, Bool.or_eq_false_iff, beq_eq_false_iff_ne] at hj
+    unfold dropGone
+    simp only
+    split
+    · have := ih (w.setSlot k { w.slot k with fstate := 2, sess := none, pending := [], ending := false }) j hj.2
+      exact ⟨this.1.trans (slot_setSlot_ne w k j _ (Ne.symm hj.1)), this.2⟩
+    · exact ih w j hj.2
+
 end Tbox.C13
